@@ -1106,7 +1106,7 @@ func TestHistories(t *testing.T) {
 	r.Extra("disk_buckets_on", fsName+" (kind os-tmpdir: TMPDIR)")
 	caseNo := 0
 	observe = r.Class
-	r.Check(t, r.Scale(4000, 42000), 1, func(t *rapid.T) {
+	r.Check(t, r.Scale(12000, 60000), 1, func(t *rapid.T) {
 		caseNo++
 		su := genSetup(t)
 		caseFast := filepath.Join(fastDir, "c"+strconv.Itoa(caseNo))
